@@ -76,7 +76,11 @@ static void run(const char *dir)
         k = "R";
         {
           char *full = _GD_MakeFullPath(D, D->fragment[E->fragment_index].dirfd, E->e->u.raw.filebase, 0);
-          x = strdup(full ? rel(root, full) : "?");
+          {
+            char tmp[4200];
+            snprintf(tmp, sizeof tmp, "%s ty=%d", full ? rel(root, full) : "?", (int)GD_SIZE(E->EN(raw,data_type)));
+            x = strdup(tmp);
+          }
           if (simple && (D->fragment[E->fragment_index].encoding == GD_UNENCODED)) {
             char *pub = gd_raw_filename(D, E->field);
             if (pub == NULL || full == NULL || strcmp(pub, full))
@@ -87,6 +91,22 @@ static void run(const char *dir)
         }
         break;
       case GD_BIT_ENTRY: k = "B"; x = strdup(E->in_fields[0]); break;
+      case GD_LINTERP_ENTRY:
+        k = "L";
+        {
+          char tmp[8400];
+          char *full = _GD_MakeFullPath(D, D->fragment[E->fragment_index].dirfd, E->EN(linterp,table), 0);
+          snprintf(tmp, sizeof tmp, "%s tab==%s", E->in_fields[0], full ? rel(root, full) : "?");
+          x = strdup(tmp);
+          if (simple) {
+            const char *pub = gd_linterp_tablename(D, E->field);
+            if (pub == NULL || full == NULL || strcmp(pub, full))
+              printf("X gd_linterp_tablename(%s) = %s, expected %s\n", E->field, pub ? pub : "(null)", full ? full : "(null)");
+            free((void *)pub);
+          }
+          free(full);
+        }
+        break;
       case GD_ALIAS_ENTRY:
         k = "A"; x = strdup(E->in_fields[0]);
         if (E->e->entry[0]) { snprintf(resbuf, sizeof resbuf, "=%s", E->e->entry[0]->field); res = resbuf; }
@@ -120,6 +140,25 @@ static void run(const char *dir)
   {
     const char *r = gd_reference(D, NULL);
     printf("REF %s%s\n", r ? "=" : "-", r ? r : "");
+  }
+  /* data: one sample of every RAW field of a raw-readable fragment at frame 12, so that a wrong
+   * byte order, frame offset or file location shows in the value */
+  for (u = 0; u < D->n_entries; u++) {
+    gd_entry_t *E = D->entry[u];
+    size_t l;
+    unsigned long enc;
+    if (E->field_type != GD_RAW_ENTRY) continue;
+    enc = D->fragment[E->fragment_index].encoding;
+    if (enc != GD_AUTO_ENCODED && enc != GD_UNENCODED) continue;
+    l = strlen(E->field);
+    if (E->field[0] == '.' || strchr(E->field, '/')) continue;
+    if (l > 2 && E->field[l - 2] == '.' && strchr("rimaz", E->field[l - 1])) continue;
+    {
+      uint16_t v = 0xEEEE;
+      size_t nr = gd_getdata64(D, E->field, 12, 0, 0, 1, GD_UINT16, &v);
+      if (gd_error(D)) printf("G =%s n=-1 v=0\n", E->field);
+      else printf("G =%s n=%d v=%x\n", E->field, (int)nr, nr ? v : 0);
+    }
   }
   printf("END\n");
   gd_discard(D);
